@@ -32,7 +32,7 @@ def ritems(rng):
 class C20(Machine):
     prop = "C20"
     title = "permutation / subset-sum helpers: history clauses"
-    runs = (3000, 100000)
+    runs = (6000, 300000)
     components = {"real": ["crysp.utils.perms permutk/nextperm/combink", "crysp.utils.knapsack exactsum/dynprog"],
                   "stub": ["itertools.permutations as the model of the permutation multiset"]}
     rule = ("one evaluation = one simulated run: 1-3 clients issue eager calls (list(permutk(l,k)), nextperm(l), "
